@@ -17,6 +17,7 @@ import VerylModel.Driver.LL
 import VerylModel.Driver.Cdc
 import VerylModel.Driver.Assign
 import VerylModel.Driver.FS
+import VerylModel.Driver.Crash
 
 def main (args : List String) : IO UInt32 := do
   match args with
@@ -42,4 +43,5 @@ def main (args : List String) : IO UInt32 := do
   | ["assign"] => VerylModel.Driver.Assign.run; return 0
   | ["assignref"] => VerylModel.Driver.Assign.runRef; return 0
   | ["fs"] => VerylModel.Driver.FS.run; return 0
+  | ["crash"] => VerylModel.Driver.Crash.run; return 0
   | _ => IO.eprintln s!"vmodel: unknown domain {args}"; return 2
